@@ -53,7 +53,12 @@ def run(ctx):
             specs.append(','.join(chain))
     specs.append(f'{ders[0]}:-:nil')          # empty but present OCSP
     specs.append(f'{ders[0]}:nil:nil')
+    for o_, s_ in (('-', '-'), (hexs(b'o'), '-'), ('-', hexs(b's')), ('-', 'nil'), ('nil', '-'), (hexs(b'o'), 'nil')):
+        specs.append(f'{ders[0]}:{o_}:{s_}'); specs.append(f'{ders[0]}:{o_}:{s_},{ders[1 % len(ders)]}:nil:nil')
     g, m = ctx.both([f'cert.write {s}' for s in specs])
+    # the same chains built by the library's constructor (NewCertChain) where the shape allows (blobs on the leaf only)
+    fits = [s for s in specs if s and all(c.split(':')[1:] == ['nil', 'nil'] for c in s.split(',')[1:])]
+    ctx.both([f'cert.write.new {s}' for s in dict.fromkeys(fits)])
     files = [unhex(x.split(' ')[1]) for x in g if x and x.startswith('ok ')]
     muts = []
     for f in files[:: (1 if thorough else 4)]:
